@@ -1,4 +1,4 @@
-// F20: palette BMP with a V4 (108-byte) header: colour table read from offset 54 with 3-byte entries
+// F13d: palette BMP with a V4 (108-byte) header: colour table read from offset 54 with 3-byte entries
 #include <boost/gil.hpp>
 #include <boost/gil/extension/io/bmp.hpp>
 #include <sstream>
